@@ -47,15 +47,19 @@ class Prop:
               "keep_children/with_clones, remove_children, clear, del, sort, set_data/rename, metadata edits, in-place filter, from_dict): "
               "placement of a new child for before=None/False/True/index (negative, clamped)/node in list algebra; per operation the child list "
               "it names and, through one context lemma on the pre-order list of (parent, node, payload) rows, the frame condition that every other "
-              "row is unchanged in unchanged order; sort is a permutation, sorted by key, stable, also with reverse.  The model is tied to /repo on "
+              "row is unchanged in unchanged order; sort (flat or deep) is a permutation, sorted by key, stable, also with reverse; every operation "
+              "leaves all trees but its target untouched.  The model is tied to /repo on "
               "every run: the implementation's full observable state after every step of exhaustive single-op cases (all forests <= 3/4 nodes x "
               "all arguments) and random histories must equal the model's, and an independent Python specification of every documented effect "
               "(harness/mut_spec.py) is evaluated on every step."),
         note=("Trusted: Coq kernel + vm_compute; hand-written model Mut/Machine.v (tied by the correspondence only); harness/mut.py, mut_spec.py. "
-              "The model describes the code as repaired by fixes/D01..D48 (series in fixes/SERIES.txt); each repaired defect has a witness in "
+              "The model describes the code as repaired by fixes/D01..D70 (ordered series in fixes/SERIES.txt); each repaired defect has a witness in "
               "mut.CORPUS that fails on the unchanged code.  Pinned behaviour kept and modelled: the top node of a typed copy gets kind 'child' (D47). "
-              "Effect theorems for move_to, set_data on clone groups and deep sort are covered by the correspondence and the Python specification, "
-              "their Coq statements are proved at the level named in Properties/C04.v."),
+              "Proved for all inputs (Properties/C04.v): placement for every form of `before`; effect + row-level frame of add, the four shortcuts, "
+              "remove (branch / keep_children / with_clones = prune of the clone group), remove_children, clear, del, move_to, sort (flat and deep: permutation, sorted by key, stable, reverse), "
+              "set_data/rename incl. clone groups, metadata edits; and for EVERY op and outcome that only the tree it works on can change. "
+              "Not restated in Coq (decided by correspondence + mut_spec only): remove(with_clones, keep_children) together, the copy family "
+              "(property C07), in-place filter (C08), from_dict."),
         technique="Coq proof about an executable Gallina model + differential correspondence check (vm_compute) + Python oracle",
         design_ref="DESIGN.md section 6 (C04), 3.2, 3.4",
     )
@@ -88,11 +92,18 @@ class Prop:
         for g in mut.gen_addtree(typed=(False,) if quick else (False, True)):
             for i in range(0, len(g["alts"]), CHUNK):
                 yield dict(kind="alts", univ=g["univ"], setup=g["setup"], alts=g["alts"][i:i + CHUNK], label=g["label"])
+        if quick:
+            for g in mut.gen_exhaustive(2, typed=(True,), labelings=("distinct",), families=("add", "short", "remove", "move", "sort", "set_data"), nmin=1):
+                for i in range(0, len(g["alts"]), CHUNK):
+                    yield dict(kind="alts", univ=g["univ"], setup=g["setup"], alts=g["alts"][i:i + CHUNK], label=g["label"] + "/typed")
+            # siblings of alternating kinds: the kind-aware shortcuts must use ANY_KIND neighbours
+            for g in mut.gen_shapes([((), (), ()), (((), (), ()),)], labelings=("distinct",), typed=(True,), families=("short", "add")):
+                yield dict(kind="alts", univ=g["univ"], setup=g["setup"], alts=g["alts"][:2 * CHUNK], label=g["label"] + "/typed")
         if not quick:
             for g in mut.gen_exhaustive(3, typed=(True,)):
                 for i in range(0, len(g["alts"]), CHUNK):
                     yield dict(kind="alts", univ=g["univ"], setup=g["setup"], alts=g["alts"][i:i + CHUNK], label=g["label"] + "/typed")
-        nrand = 30 if quick else 600
+        nrand = 30 if quick else 450
         for i in range(nrand):
             n_ops = rng.randint(8, 25 if quick else 40)
             h = (mut.gen_malformed if i % 3 == 2 else mut.gen_random)(rng, n_ops)
